@@ -219,6 +219,15 @@ def gen(rng, tier):
         for b in (1, 2, 3, 5, 8):
             E.api_all(a, b)
 
+    # ---- primitive-type boundaries (operands that just fit / just miss i32, i64, i128, u64, u128): any
+    #      native fast path must agree with the big path there, incl. MIN / -1 whose quotient does not fit
+    edges = []
+    for k in (31, 32, 63, 64, 127, 128):
+        edges += [(1 << k) - 1, 1 << k, (1 << k) + 1]
+    for a in edges:
+        for b in (1, 2, 3, 7, (1 << 31), (1 << 63), (1 << 64) - 1, (1 << 127), (1 << 127) - 1, a, a - 1, a + 1):
+            E.api_all(a, b)
+
     for _ in range(rounds):
         # ---- single-digit divisors and the to_u32 / to_i32 fast paths of Rem
         one_digit = [1, 2, 3, 10, (1 << 31) - 1, 1 << 31, (1 << 31) + 1, (1 << 32) - 1, 1 << 32, (1 << 32) + 1,
